@@ -470,4 +470,28 @@ def run(chk):
             b = P.impl_method("emit_core::props::Props", "emit::macro_hooks::__PrivateMacroProps<'a, N>", "get")
             return c02.macro_get(P, b)
         chk.ob("C16.R2:MacroProps-get", "a hole's value is looked up in a macro-built collection past empty optional entries (the same entry enumeration yields)", macro_props_get)
+
+    def private_format():
+        """emit::format!: the hook renders the template with the props into a String and returns that String - the render's write is called
+        on the very buffer that is returned, with the hook's own template and props."""
+        k = "emit::macro_hooks::__private_format"
+        if not P.has_body(k):
+            if getattr(chk, "_overlay", None):
+                return True, "", ["absent in this configuration"]
+            raise mir.AnchorMissing(k)
+        b = P.body(k)
+        wr = [c for c in b.calls(normal_only=True) if c.callee.get("name") == "write" and "Render" in (c.callee.get("path") or "")]
+        if len(wr) != 1 or not b.must_pass([wr[0].bb]):
+            return False, "__private_format does not write the rendered template on every path (write calls: %d): format! would return an empty string" % len(wr), [], b.span
+        buf = mir.o_root(b.origin(wr[0].args[1]))
+        ret = mir.o_root(b.origin(0))
+        same = (buf[0] == ret[0] == "call" and buf[1].bb == ret[1].bb) or buf[:2] == ret[:2]
+        if not same:
+            return False, "__private_format writes into %s but returns %s" % (o_str(buf), o_str(ret)), [], wr[0].loc
+        rn = mir.o_root(b.origin(wr[0].args[0]))
+        if not (rn[0] == "call" and rn[1].callee.get("name") == "render" and mir.o_is_param(mir.o_root(b.origin(rn[1].args[0])), idx=1)
+                and mir.o_is_param(mir.o_root(b.origin(rn[1].args[1])), idx=2)):
+            return False, "__private_format does not render its own template with its own props", [], wr[0].loc
+        return True, "", [wr[0].loc]
+    chk.ob("C16.R2:__private_format", "format! returns the buffer the template was rendered into", private_format)
     return chk
